@@ -221,6 +221,253 @@ func runC05Extra(c *core.Check) {
 	}
 }
 
+func init() {
+	Extend("C11", runC11Extra,
+		Mutant{Name: "seed-C11b-long-raw-values-rejected-early", File: "internal/format/format.go", Rule: "C11-R4",
+			Old: "func ContainsRawTagValueBytes(s []byte) (int32, bool) {\n", New: "func ContainsRawTagValueBytes(s []byte) (int32, bool) {\n	if len(s) > len(\"-2147483648\") {\n		return 0, false\n	}\n"},
+		Mutant{Name: "seed-C11a-force-truncates-input-before-normalising", File: "internal/format/format.go", Rule: "C11-R5",
+			Old: "	dst := []byte(src)\n	dst, _ = appendValidStringValue(dst[:0], dst, MaxStringLen, true)\n", New: "	if len(src) > MaxStringLen+utf8.UTFMax {\n		src = src[:MaxStringLen+utf8.UTFMax]\n	}\n	dst := []byte(src)\n	dst, _ = appendValidStringValue(dst[:0], dst, MaxStringLen, true)\n"})
+	Extend("C22", runC22Extra,
+		Mutant{Name: "seed-C22b-step-back-by-subtraction", File: "internal/data_model/timescale.go", Rule: "C22-R7", Occurrence: 1,
+			Old: "			t = startOfLOD(t-1, p.Step, args.Location, args.UTCOffset)\n", New: "			t -= p.Step\n"})
+	Extend("C27", runC27Extra,
+		Mutant{Name: "seed-C27a-stdvar-divides-by-group-size", File: "internal/promql/functions.go", Rule: "C27-R5",
+			Old: "		mean := sum / float64(cnt)\n", New: "		mean := sum / float64(len(ds))\n"})
+}
+
+// C11-R4: raw values are rejected only for the enumerated reasons.
+// C11-R5: the forcing/strict entry points normalise their whole input.
+func runC11Extra(c *core.Check) {
+	c.Decides += " R4 the raw-tag parsers answer 'not a raw value' only for a parse error, a value outside the range, or empty input (no other early rejection, so exactly the in-range decimals are accepted, zero-padded ones included); R5 every normalisation entry point hands its whole, un-resliced input to the normaliser (the 128-byte limit applies to the normalised output, not to the input)."
+	c.Rule("C11-R4", "K1 exact rejection reasons", 3, "every way the ok result of ContainsRawTagValueBytes / containsRawTagValue64 becomes false is: parse error, below -2^31, above 2^32-1, or empty input")
+	allowedFalse := func(l core.Lit) bool {
+		t := l.Text
+		switch {
+		case l.Op == token.EQL && !l.Pol && strings.Contains(t, "mem.Parse") && strings.HasSuffix(t, "#1 == nil)"):
+			return true // err != nil
+		case l.Op == token.LSS && l.Pol && strings.Contains(t, "mem.Parse") && strings.HasSuffix(t, "#0 < -2147483648)"):
+			return true
+		case l.Op == token.LSS && l.Pol && strings.HasPrefix(t, "(4294967295 < ") && strings.Contains(t, "mem.Parse"):
+			return true
+		case l.Op == token.EQL && l.Pol && strings.HasSuffix(t, ".Len({0:mem.RO}) == 0)"):
+			return true
+		}
+		return false
+	}
+	for _, name := range []string{"internal/format.ContainsRawTagValueBytes", "internal/format.containsRawTagValue64"} {
+		fn := need(c, "C11-R4", name)
+		if fn == nil {
+			continue
+		}
+		n := 0
+		var visit func(v ssa.Value, at *ssa.BasicBlock, pos token.Pos, seen map[ssa.Value]bool)
+		visit = func(v ssa.Value, at *ssa.BasicBlock, pos token.Pos, seen map[ssa.Value]bool) {
+			if seen[v] {
+				return
+			}
+			seen[v] = true
+			switch x := v.(type) {
+			case *ssa.Phi:
+				for i, e := range x.Edges {
+					if core.ConstBool(e, false) {
+						n++
+						l, ok := core.EdgeLit(x.Block().Preds[i], x.Block())
+						c.Require(ok && allowedFalse(l), "C11-R4", fmt.Sprintf("%s/false#%d", name, n), pos, "rejection for an enumerated reason: "+l.String(),
+							"the raw value is rejected under "+l.String()+", which is not a parse error, a range violation or empty input: valid in-range decimals are refused")
+					} else {
+						visit(e, x.Block().Preds[i], pos, seen)
+					}
+				}
+			case *ssa.Const:
+				if core.ConstBool(x, false) {
+					n++
+					ok := false
+					why := core.FactsString(at)
+					for _, g := range core.Facts(at) {
+						if len(g.Alts) == 1 && allowedFalse(g.Alts[0]) {
+							ok = true
+						}
+					}
+					c.Require(ok, "C11-R4", fmt.Sprintf("%s/false#%d", name, n), pos, "rejection for an enumerated reason",
+						"the raw value is rejected on a path whose conditions ("+why+") contain no parse error, range violation or empty-input test: valid in-range decimals are refused")
+				}
+			}
+		}
+		for _, r := range core.Returns(fn) {
+			vals := core.ReturnedValues(r)
+			visit(vals[len(vals)-1], r.Block(), r.Pos(), map[ssa.Value]bool{})
+		}
+	}
+
+	c.Rule("C11-R5", "K7 provenance", 3, "the source argument of appendValidStringValue in every wrapper is the wrapper's parameter itself or a conversion of it")
+	fns := c.Prog.FuncsIn("internal/format")
+	n := 0
+	for _, s := range core.Callers(fns, "internal/format.appendValidStringValue") {
+		if s.Fn.Name() == "appendValidStringValue" {
+			continue
+		}
+		n++
+		src := s.Arg(1)
+		for {
+			if cv, ok := src.(*ssa.Convert); ok {
+				src = cv.X
+				continue
+			}
+			if ct, ok := src.(*ssa.ChangeType); ok {
+				src = ct.X
+				continue
+			}
+			break
+		}
+		_, isParam := src.(*ssa.Parameter)
+		c.Require(isParam, "C11-R5", core.Ordinals([]core.Site{s})[0], s.Pos(), "whole input normalised",
+			"the normaliser receives "+core.Expr(s.Arg(1))+" instead of the caller's whole input: cutting the input before whitespace is collapsed loses content that fits the limit and can split a rune, so forcing disagrees with strict normalisation on valid input")
+	}
+	if n == 0 {
+		c.Undecided("C11-R5", "internal/format.appendValidStringValue/callers", 0, "no wrapper calls the normaliser")
+	}
+}
+
+// C22-R7: time-axis points come only from the calendar-aware helpers.
+func runC22Extra(c *core.Check) {
+	c.Decides += " R7 every time point GetTimescale emits is, on every path, the result of a calendar-aware helper (startOfLOD, StepForward, endOfLOD) — never raw arithmetic with the step, which is wrong for the monthly step (a constant 31 days, not a calendar month)."
+	c.Rule("C22-R7", "K7 all-paths provenance", 2, "every value appended/stored into Timescale.Time in GetTimescale derives on every phi edge from startOfLOD / StepForward / endOfLOD")
+	fn := need(c, "C22-R7", "internal/data_model.GetTimescale")
+	if fn == nil {
+		return
+	}
+	isHelper := func(v ssa.Value) bool {
+		if ex, ok := v.(*ssa.Extract); ok {
+			v = ex.Tuple
+		}
+		call, ok := v.(*ssa.Call)
+		if !ok {
+			return false
+		}
+		switch core.CalleeName(&call.Call) {
+		case "internal/data_model.startOfLOD", "internal/data_model.StepForward", "internal/data_model.endOfLOD":
+			return true
+		}
+		return false
+	}
+	var allHelper func(v ssa.Value, seen map[ssa.Value]bool) (bool, string)
+	allHelper = func(v ssa.Value, seen map[ssa.Value]bool) (bool, string) {
+		if isHelper(v) {
+			return true, ""
+		}
+		if seen[v] {
+			return true, ""
+		}
+		seen[v] = true
+		if phi, ok := v.(*ssa.Phi); ok {
+			for _, e := range phi.Edges {
+				if ok, why := allHelper(e, seen); !ok {
+					return false, why
+				}
+			}
+			return true, ""
+		}
+		if k, ok := v.(*ssa.Const); ok && k.Value != nil && k.Value.String() == "0" {
+			return true, "" // placeholder element of the two-point literal, overwritten below
+		}
+		return false, core.Expr(v)
+	}
+	n := 0
+	check := func(v ssa.Value, pos token.Pos) {
+		n++
+		ok, why := allHelper(v, map[ssa.Value]bool{})
+		c.Require(ok, "C22-R7", fmt.Sprintf("internal/data_model.GetTimescale/time-point#%d", n), pos, "time point produced by a calendar-aware helper",
+			"a time point of the axis is computed as "+why+" instead of startOfLOD/StepForward/endOfLOD: for the monthly step this lands on day 29-31 of an earlier month and the axis is neither aligned nor spaced by calendar months")
+	}
+	for _, b := range fn.Blocks {
+		for _, in := range b.Instrs {
+			switch x := in.(type) {
+			case *ssa.Call:
+				// res.Time = append(res.Time, t)
+				if core.CalleeName(&x.Call) == "builtin append" && strings.HasSuffix(core.Expr(x.Call.Args[0]), ".Time") {
+					if vals, ok := core.VarargValues(x.Call.Args[1]); ok {
+						for _, v := range vals {
+							check(v, x.Pos())
+						}
+					}
+				}
+			case *ssa.Store:
+				// res.Time[1] = …  and the elements of the literal []int64{t, 0} stored into res.Time
+				if ia, ok := x.Addr.(*ssa.IndexAddr); ok {
+					base := core.Expr(ia.X)
+					if strings.HasSuffix(base, ".Time") {
+						check(x.Val, x.Pos())
+					}
+					if a, isA := ia.X.(*ssa.Alloc); isA {
+						for _, r := range core.Referrers(a) {
+							if sl, isSl := r.(*ssa.Slice); isSl {
+								for _, rr := range core.Referrers(sl) {
+									if st, isSt := rr.(*ssa.Store); isSt && strings.HasSuffix(core.Expr(st.Addr), ".Time") {
+										check(x.Val, x.Pos())
+									}
+								}
+							}
+						}
+					}
+				}
+			}
+		}
+	}
+	if n < 2 {
+		c.Undecided("C22-R7", "internal/data_model.GetTimescale/time-points", fn.Pos(), "fewer than 2 time-point stores recognised")
+	}
+}
+
+// C27-R5: aggregate arithmetic uses the count of present points, not the group size.
+func runC27Extra(c *core.Check) {
+	c.Decides += " R5 in the per-timestamp aggregate functions the size of the group (len of the series slice) never enters floating-point arithmetic: means and variances are divided by the count of present points."
+	c.Rule("C27-R5", "K7 forbidden flow", 1, "in funcAvg/funcStdVar/funcStdDev/funcSum/funcCount/funcQuantile no float arithmetic operand derives from len(ds)")
+	n := 0
+	for _, name := range []string{"funcAvg", "funcStdVar", "funcStdDev", "funcSum", "funcCount", "funcQuantile", "funcMin", "funcMax"} {
+		fn := c.Prog.Func("internal/promql." + name)
+		if fn == nil {
+			c.Anchor("C27-R5", "internal/promql."+name)
+			continue
+		}
+		n++
+		bad := ""
+		for _, b := range fn.Blocks {
+			for _, in := range b.Instrs {
+				call, ok := in.(*ssa.Call)
+				if !ok || core.CalleeName(&call.Call) != "builtin len" {
+					continue
+				}
+				if p, isP := call.Call.Args[0].(*ssa.Parameter); !isP || p != fn.Params[0] {
+					continue
+				}
+				// follow conversions; a float conversion used in arithmetic is the violation
+				var walk func(v ssa.Value, depth int)
+				walk = func(v ssa.Value, depth int) {
+					if depth > 6 {
+						return
+					}
+					for _, r := range core.Referrers(v) {
+						switch y := r.(type) {
+						case *ssa.Convert:
+							walk(y, depth+1)
+						case *ssa.BinOp:
+							if strings.Contains(y.Type().Underlying().String(), "float") {
+								bad = core.Expr(y)
+							}
+						}
+					}
+				}
+				walk(call, 0)
+			}
+		}
+		c.Require(bad == "", "C27-R5", "internal/promql."+name+"/group-size-in-arithmetic", fn.Pos(), "group size not used in the aggregate's arithmetic",
+			"the aggregate computes "+bad+" with the group size len(ds): series without a point at the timestamp are counted, so missing points are not excluded")
+	}
+	if n == 0 {
+		c.Undecided("C27-R5", "internal/promql/aggregates", 0, "no aggregate function found")
+	}
+}
+
 // derivesAllPaths reports whether v, on every path (every phi edge), is computed by
 // additions/conversions from a value satisfying pred. undecided lists value forms the
 // small idiom table does not cover.
